@@ -1242,7 +1242,7 @@ package stackage
 //@ loop 1 invariant okslice(in, alloc) && (len(in0) != 1 ==> in == in0)
 
 //@ func marshalDefault
-//@ tags C16,C09,C11
+//@ tags C16,C09,C11,C04
 //@ safety C16
 //@ requires okslice(in, alloc)
 //@ ensures[C16:md.result] (x == nil || (wf(x) && fresh(x))) && (c == nil || (cwf(c) && fresh(c)))
@@ -1250,10 +1250,12 @@ package stackage
 //@ let lab := toUpper(str_of(in[0]))
 //@ let known := lab == "LIST" || lab == "AND" || lab == "OR" || lab == "NOT" || lab == "BASIC"
 //@ ensures[C16:md.nolabel] len(in) >= 2 && !is_v_str(in[0]) ==> err != nil && x == nil && c == nil
-//@ ensures[C16:md.known] len(in) >= 2 && is_v_str(in[0]) && known ==> x != nil && ulen(x) == len(in) - 1 && F_nodeConfig_typ[cfgOf(x)] == ite(lab == "LIST", 0x04, ite(lab == "AND", 0x01, ite(lab == "NOT", 0x03, ite(lab == "OR", 0x02, 0x06))))
-//@ ensures[C16:md.unknown] len(in) >= 2 && is_v_str(in[0]) && !known && lab != "CONDITION" ==> x != nil && ulen(x) == len(in) && F_nodeConfig_typ[cfgOf(x)] == 0x06
+//@ ensures[C16,C04:md.known] len(in) >= 2 && is_v_str(in[0]) && known ==> x != nil && ulen(x) == len(in) - 1 && F_nodeConfig_typ[cfgOf(x)] == ite(lab == "LIST", 0x04, ite(lab == "AND", 0x01, ite(lab == "NOT", 0x03, ite(lab == "OR", 0x02, 0x06))))
+//@ ensures[C16,C04:md.unknown] len(in) >= 2 && is_v_str(in[0]) && !known && lab != "CONDITION" ==> x != nil && ulen(x) == len(in) && F_nodeConfig_typ[cfgOf(x)] == 0x06
+//@ ensures[C04:md.leaf] len(in) >= 2 && is_v_str(in[0]) && known ==> (forall j :: 0 <= j && j < len(in) - 1 && !is_v_anys(old(in[1 + j])) ==> slot(x, 1 + j) == old(in[1 + j]))
 //@ modifies fresh, G_calls_len, G_calls_fn, G_calls_arg
 //@ loop 1 invariant x != nil && wf(x) && fresh(x) && fresh(arr(hdr(x))) && 0 <= i
+//@ loop 1 invariant hdr(x) == pre(hdr(x)) && (forall q :: 1 <= q && q < len(hdr(x)) && !is_v_anys(pre(cell(hdr(x), q))) ==> cell(hdr(x), q) == pre(cell(hdr(x), q)))
 //@ loop 1 invariant len(hdr(x)) == pre(len(hdr(x))) && cfgOf(x) == pre(cfgOf(x))
 //@ loop 1 invariant forall a :: 0 <= a && a < old(alloc) ==> Mem_Val[a] == old(Mem_Val[a])
 //@ loop 1 invariant forall a :: 0 <= a && a < old(alloc) ==> Cell_stack[a] == old(Cell_stack[a])
@@ -1365,19 +1367,19 @@ package stackage
 // C16: Marshal accepts or rejects any input without panicking
 
 //@ func stackByWord
-//@ tags C16
+//@ tags C16,C04
 //@ safety C16
 //@ let u := toUpper(label)
 //@ ensures[C16:stackByWord] result != nil && wf(result) && fresh(result) && fresh(arr(hdr(result))) && fresh(cfgOf(result)) && ulen(result) == 0 && F_nodeConfig_cap[cfgOf(result)] == 0 && F_nodeConfig_ppf[cfgOf(result)] == nil && F_nodeConfig_opt[cfgOf(result)] == 0x0000
-//@ ensures[C16:stackByWord.kind] F_nodeConfig_typ[cfgOf(result)] == ite(u == "LIST", 0x04, ite(u == "AND", 0x01, ite(u == "NOT", 0x03, ite(u == "OR", 0x02, 0x06))))
+//@ ensures[C16,C04:stackByWord.kind] F_nodeConfig_typ[cfgOf(result)] == ite(u == "LIST", 0x04, ite(u == "AND", 0x01, ite(u == "NOT", 0x03, ite(u == "OR", 0x02, 0x06))))
 //@ modifies fresh
 
 //@ func extractConditionValues
-//@ tags C16
+//@ tags C16,C04
 //@ safety C16
 //@ requires okslice(in, alloc)
 //@ ensures[C16:ecv] c == nil || (cwf(c) && fresh(c))
-//@ ensures[C16:ecv.fields] len(in) == 4 && is_v_str(in[1]) && !is_v_anys(in[3]) ==> c != nil && F_condition_kw[c] == str_of(in[1]) && F_condition_op[c] == ite(isOperator(in[2]) && acceptOp(in[2]), in[2], nil) && F_condition_ex[c] == ite(acceptEx(false, nil, in[3]), in[3], nil)
+//@ ensures[C16,C04:ecv.fields] len(in) == 4 && is_v_str(in[1]) && !is_v_anys(in[3]) ==> c != nil && F_condition_kw[c] == str_of(in[1]) && F_condition_op[c] == ite(isOperator(in[2]) && acceptOp(in[2]), in[2], nil) && F_condition_ex[c] == ite(acceptEx(false, nil, in[3]), in[3], nil)
 //@ modifies fresh, G_calls_len, G_calls_fn, G_calls_arg
 
 //@ func (*Stack).Marshal
